@@ -456,3 +456,26 @@ class ScfHistories:
 
 register(Obligation(name="C19.SCF.histories_equal_fresh", prop=PROP, engine="B", bounded=True, run=ScfHistories(), functions=["eminus.scf:SCF.pot_params", "eminus.scf:SCF.atoms", "eminus.scf:SCF.run"],
                     budget={"quick": 300, "thorough": 600}, doc="BOUNDED: SCF objects after parameter resets and geometry changes between runs equal fresh objects (Vloc, stored Ewald energy)"))
+
+
+class AtomsHelperHistories:
+    def __call__(self, ob, tier, seed):
+        from contracts.c19_replay import helper_histories
+        from pycv.framework import BOUNDED_OK
+
+        try:
+            bad, info = helper_histories()
+        except Exception as e:  # noqa: BLE001
+            bad, info = True, dict(raised=f"{type(e).__name__}: {e}")
+        if bad:
+            return Result(REFUTED, backend="native", witness=dict(helper="recenter / set_k"), replayed=True, replay_info=info, detail=f"Atoms helper: {str(info)[:300]}")
+        return Result(BOUNDED_OK, backend="native", detail="bounded: recenter (two targets, before and after a rebuild) and set_k without weights agree with fresh objects")
+
+    def replay(self, wit):
+        from contracts.c19_replay import helper_histories
+
+        return helper_histories()
+
+
+register(Obligation(name="C19.Atoms.recenter_set_k.histories_equal_fresh", prop=PROP, engine="B", bounded=True, run=AtomsHelperHistories(), functions=["eminus.atoms:Atoms.recenter", "eminus.atoms:Atoms.set_k"],
+                    doc="BOUNDED: after recenter the structure factors (and everything else) are those of a fresh object at the final positions; set_k without weights gives equal weights"))
